@@ -379,6 +379,11 @@ Section Rec.
 End Rec.
 
 (** ** A section *)
+(** the same record in two packets: same owner labels, fixed fields and data reading (positions may differ) *)
+Definition same_rec (rx rx' : rec_view * rd_view) : Prop :=
+  snd rx' = snd rx /\ rv_labels (fst rx') = rv_labels (fst rx) /\ rv_type (fst rx') = rv_type (fst rx) /\
+  rv_class (fst rx') = rv_class (fst rx) /\ rv_ttl (fst rx') = rv_ttl (fst rx).
+
 Section Recs.
   Variable p : bytes.
   Hypothesis Hb : bytes_ok p.
@@ -393,7 +398,7 @@ Section Recs.
         let e := length pre + length (concat (map plain_record lx)) in
         rrs_wf q sec seen (length pre) n e seen' /\
         exists lx', records_at q (length pre) (map fst lx') e /\ Forall (rd_ok q) lx' /\
-                    map plain_record lx' = map plain_record lx.
+                    map plain_record lx' = map plain_record lx /\ Forall2 same_rec lx lx'.
   Proof.
     induction 1 as [seen off|seen off off1 seen1 n off' seen' Hrr Hrest IH].
     - exists []. cbn [map concat length]. split; [constructor|]. split; [reflexivity|]. split; [constructor|].
@@ -406,7 +411,7 @@ Section Recs.
       split; [constructor; [exact Hx|exact Hxs]|]. split; [apply bytes_ok_app; assumption|].
       intros pre post. cbv zeta.
       destruct (Hctx pre (concat (map plain_record lx) ++ post)) as (W1 & R1 & X1).
-      destruct (Hctxs (pre ++ plain_record (r, x)) post) as (W2 & lx' & R2 & X2 & E2).
+      destruct (Hctxs (pre ++ plain_record (r, x)) post) as (W2 & lx' & R2 & X2 & E2 & F2).
       assert (Eq1 : pre ++ (plain_record (r, x) ++ concat (map plain_record lx)) ++ post =
                     pre ++ plain_record (r, x) ++ concat (map plain_record lx) ++ post) by (rewrite <- !app_assoc; reflexivity).
       assert (Eq2 : (pre ++ plain_record (r, x)) ++ concat (map plain_record lx) ++ post =
@@ -418,7 +423,8 @@ Section Recs.
       split; [econstructor; eauto|].
       exists ((rv_at r x (length pre), x) :: lx'). cbn [map fst].
       split; [change (length pre) with (rv_off (rv_at r x (length pre))) at 1; econstructor; eauto|].
-      split; [constructor; [exact X1|exact X2]|]. cbn [map]. rewrite E2. reflexivity.
+      split; [constructor; [exact X1|exact X2]|]. split; [cbn [map]; rewrite E2; reflexivity|].
+      constructor; [unfold same_rec; cbn; auto|exact F2].
   Qed.
 End Recs.
 
@@ -505,7 +511,8 @@ Theorem plain_packet : forall p, bytes_ok p -> wf_packet p ->
     bytes_ok q /\ wf_packet q /\
     exists lxa' lxn' lxr', reading q qls qt lxa' lxn' lxr' /\
       map plain_record lxa' = map plain_record lxa /\ map plain_record lxn' = map plain_record lxn /\
-      map plain_record lxr' = map plain_record lxr.
+      map plain_record lxr' = map plain_record lxr /\
+      Forall2 same_rec (lxa ++ lxn ++ lxr) (lxa' ++ lxn' ++ lxr').
 Proof.
   intros p Hb (w & an & ns & ar & qe & qclass & e1 & s1 & e2 & s2 & s3 & Hw & Hqd & Han & Hns & Har & (qls & Hqn) & Hq4 & Hqc & Hcls & Hgate & Hc1 & Hc2 & Hc3).
   subst qclass.
@@ -532,9 +539,9 @@ Proof.
   pose proof (wire_length_le _ _ _ _ Hqn) as Hwl. fold W in Hwl.
   pose proof (u16_lt _ _ _ Hb Hqt) as Hqtlt.
   (* the three sections in their contexts *)
-  destruct (Hca (hdr ++ W ++ be16_bytes qt ++ be16_bytes CLASS_IN) (Nn ++ R)) as (Wa & lxa' & Ra & Xa & Ea). fold A in Wa, Ra, Xa.
-  destruct (Hcn (hdr ++ (W ++ be16_bytes qt ++ be16_bytes CLASS_IN) ++ A) R) as (Wn & lxn' & Rn & Xn & En). fold Nn in Wn, Rn, Xn.
-  destruct (Hcr (hdr ++ (W ++ be16_bytes qt ++ be16_bytes CLASS_IN) ++ A ++ Nn) []) as (Wr & lxr' & Rr & Xr & Er). fold R in Wr, Rr, Xr.
+  destruct (Hca (hdr ++ W ++ be16_bytes qt ++ be16_bytes CLASS_IN) (Nn ++ R)) as (Wa & lxa' & Ra & Xa & Ea & Fa). fold A in Wa, Ra, Xa.
+  destruct (Hcn (hdr ++ (W ++ be16_bytes qt ++ be16_bytes CLASS_IN) ++ A) R) as (Wn & lxn' & Rn & Xn & En & Fn). fold Nn in Wn, Rn, Xn.
+  destruct (Hcr (hdr ++ (W ++ be16_bytes qt ++ be16_bytes CLASS_IN) ++ A ++ Nn) []) as (Wr & lxr' & Rr & Xr & Er & Fr). fold R in Wr, Rr, Xr.
   assert (Q1 : (hdr ++ W ++ be16_bytes qt ++ be16_bytes CLASS_IN) ++ A ++ Nn ++ R = q) by (unfold q; rewrite <- !app_assoc; reflexivity).
   assert (Q2 : (hdr ++ (W ++ be16_bytes qt ++ be16_bytes CLASS_IN) ++ A) ++ Nn ++ R = q) by (unfold q; rewrite <- !app_assoc; reflexivity).
   assert (Q3 : (hdr ++ (W ++ be16_bytes qt ++ be16_bytes CLASS_IN) ++ A ++ Nn) ++ R ++ [] = q) by (unfold q; rewrite app_nil_r, <- !app_assoc; reflexivity).
@@ -567,7 +574,8 @@ Proof.
     split; [apply Hh; [lia|exact Hns]|]. split; [apply Hh; [lia|exact Har]|].
     split; [exists qls; exact Cq|]. split; [lia|]. split; [exact Clq|]. split; [reflexivity|]. split; [exact Hgate|].
     split; [exact Wa|]. split; [exact Wn|exact Wr]. }
-  exists lxa', lxn', lxr'. split; [|auto].
+  exists lxa', lxn', lxr'.
+  split; [|split; [exact Ea|]; split; [exact En|]; split; [exact Er|]; apply Forall2_app; [exact Fa|apply Forall2_app; assumption]].
   constructor.
   - exists (12 + length W), (12 + length W + 4 + length A), (12 + length W + 4 + length A + length Nn).
     split; [exact Cq|]. split; [exact Tq|]. split; [exact Clq|]. split; [lia|]. split; [exact Ra|]. split; [exact Rn|exact Rr].
@@ -602,11 +610,12 @@ Theorem uncompress_roundtrip : forall p v, bytes_ok p -> parse p = Ok v ->
     uncompress p = Ok q /\ bytes_ok q /\ parse q = Ok v' /\ uncompress q = Ok q /\
     reading p qls qt lxa lxn lxr /\ reading q qls qt lxa' lxn' lxr' /\
     map plain_record lxa' = map plain_record lxa /\ map plain_record lxn' = map plain_record lxn /\
-    map plain_record lxr' = map plain_record lxr.
+    map plain_record lxr' = map plain_record lxr /\
+    Forall2 same_rec (lxa ++ lxn ++ lxr) (lxa' ++ lxn' ++ lxr').
 Proof.
   intros p v Hb Hp.
   destruct (uncompress_reading p v Hb Hp) as (qls1 & qt1 & lxa1 & lxn1 & lxr1 & R1 & Hu).
-  destruct (plain_packet p Hb (parse_sound p v Hb Hp)) as (qls & qt & lxa & lxn & lxr & R2 & Hbq & Hwq & lxa' & lxn' & lxr' & R2' & Ea & En & Er).
+  destruct (plain_packet p Hb (parse_sound p v Hb Hp)) as (qls & qt & lxa & lxn & lxr & R2 & Hbq & Hwq & lxa' & lxn' & lxr' & R2' & Ea & En & Er & F2).
   destruct (reading_fun _ _ _ _ _ _ _ _ _ _ _ R1 R2) as (-> & -> & -> & -> & ->).
   set (q := plain_packet_of p qls qt lxa lxn lxr) in *.
   destruct (parse_complete q Hbq Hwq) as (v' & Hp').
